@@ -153,6 +153,8 @@ def t_xward_by_internal(net, g):
 def t_merge_nets(net, g):
     other = netgen.rnd_net(int(g.rng.integers(1, 2 ** 31)), "simple", {"sn_choices": (float(net.sn_mva),), "f_hz": (float(net.f_hz),)})
     name_all(other)
+    if pf.try_run(pp.runpp, copy.deepcopy(other))[0] != "ok":
+        return None      # the second network must be solvable on its own (e.g. no fused gens with different set-points)
     for n_ in (net, other):
         for c_ in ("leakage_resistance_ratio_hv", "leakage_reactance_ratio_hv"):
             n_.trafo[c_] = n_.trafo[c_].fillna(0.5) if c_ in n_.trafo else 0.5
